@@ -22,6 +22,40 @@ def closure(ctx, kind, exe, tag, vals, nl, props):
                consts(vals, nl), props, expect_states=r.distinct)
 
 
+def b01(x):
+    return 1 if x else 0
+
+
+def list_line(kind):
+    d = kind == "dlist"
+    def line(o):
+        op = o["op"]
+        if op == "pushf": return f"0 {o['l']} {o['e']}"
+        if op == "pushb": return f"1 {o['l']} {o['e']}"
+        if op == "popf": return f"2 {o['l']}"
+        if op == "popb": return f"3 {o['l']}"
+        if op == "insert": return f"4 {o['l']} {o['pe']} {o['e']}"
+        if op == "erase": return f"5 {o['l']} {o['e']}"
+        if op == "erasea": return f"5 {o['l']} {o['pe']}"
+        if op == "reverse": return f"6 {o['l']}"
+        if op == "sort": return f"7 {o['l']}"
+        if op == "concat": return f"8 {o['d']} {o['src']}"
+        if op == "swap": return f"9 {o['a']} {o['b']}"
+        if op == "find": return f"10 {o['l']} {o['v']} {b01(o['rev'])}"
+        if op == "foreach":
+            return f"11 {o['l']} {b01(o['rev'])} {o['stop']} {b01(o['er'])}" if d else f"11 {o['l']} {o['stop']}"
+        if op == "clear": return f"12 {o['l']}"
+        if op == "peek": return f"13 {o['l']}"
+        raise HarnessError(f"no driver line for generated operation {o}")
+    return line
+
+
+def generated(ctx, kind, exe, tag, vals, nl, depth, num, props):
+    """spec -> code: the simulator walks the model (operations from its own OpSet); the walks are replayed into the code"""
+    gen_replay(ctx, tag, "Gen" + kind[1], vdef(vals), consts(vals, nl), depth, num, list_line(kind[0]), exe,
+               ["".join(map(str, vals)), nl, 1], kind[2], consts(vals, nl), props)
+
+
 def run(ctx):
     kind = KIND[ctx.pid]
     props = {ctx.pid}
@@ -30,6 +64,7 @@ def run(ctx):
     if ctx.quick:
         closure(ctx, kind, exe, "n4l3", [1, 2, 1, 2], 3, props)
         closure(ctx, kind, exe, "n5l1", [2, 1, 2, 1, 3], 1, props)
+        generated(ctx, kind, exe, "gen-n9l3", [1 + rng.randrange(4) for _ in range(9)], 3, 30, 30, props)
         steps, n = 2500, 40
     else:
         closure(ctx, kind, exe, "n4l3", [1, 2, 1, 2], 3, props)
@@ -37,6 +72,7 @@ def run(ctx):
         closure(ctx, kind, exe, "n6l1", [2, 1, 2, 1, 3, 1], 1, props)
         # objects set up with the CSTL_*_INITIALIZER macros instead of the init functions: same closure, same model
         closure(ctx, kind, build(ctx, "drv_" + kind[0] + "_macro", kind[3], kind[4], defs=["USE_INITIALIZER"]), "n4l3-macro", [1, 2, 1, 2], 3, props)
+        generated(ctx, kind, exe, "gen-n14l3", [1 + rng.randrange(5) for _ in range(14)], 3, 60, 200, props)
         steps, n = 20000, 100
     # directed histories beyond the closure: long lists (17..64 nodes) in the orders where merge sort's halves do
     # not interleave (descending, rotated at the middle), ascending, organ pipe, random; after the sort the tail
